@@ -29,6 +29,22 @@ JOBS = [
 ]
 
 
+# libc memmove modelled as two byte loops through a temporary (CBMC's own model uses array-theory copies at symbolic
+# offsets, which is what made the overlapping-move jobs take > 25 min).  An assumption about libc, listed in the evidence.
+MEMMOVE = r'''
+static void *mv_memmove(void *dst, const void *src, unsigned long n)
+{
+   char tmp[2 * MV_SMAX + 2];
+   __CPROVER_assert(n <= sizeof(tmp), "memmove length within the job's bound");
+   for (unsigned long i = 0; i < n && i < sizeof(tmp); i++) tmp[i] = ((const char *)src)[i];
+   for (unsigned long i = 0; i < n && i < sizeof(tmp); i++) ((char *)dst)[i] = tmp[i];
+   return dst;
+}
+#define memmove mv_memmove
+'''
+BYTE_MEMMOVE = ('s_append_self', 's_append_self_inline', 's_remove_char', 's_remove_char_inline')
+
+
 def lower():
     if 'L' in _cache:
         return _cache['L']
@@ -69,7 +85,8 @@ def jobs(tier):
         hdr, body = L.sliced([mangled])
         har = '\nvoid h_main(void) { mv_init_globals(); %s %s %s(%s); %s }\n' % (GH, decls, alias, args, END)
         LIO = '_ZNK6muscle6String11LastIndexOfEcj'
-        tu = ('#define MV_SMAX %d\n%s#define %s %s\n#define S_LastIndexOf %s\n' % (smax, ''.join('#define %s\n' % v for v in var.split()), alias, mangled, LIO) + hdr +
+        mm = MEMMOVE if (name in BYTE_MEMMOVE or os.environ.get('MV_BYTE_MEMMOVE')) else ''
+        tu = ('#define MV_SMAX %d\n%s#define %s %s\n#define S_LastIndexOf %s\n' % (smax, ''.join('#define %s\n' % v for v in var.split()), alias, mangled, LIO) + mm + hdr +
               '\n#line 1 "%s/contracts/string.h"\n' % VERIF + contracts + '\n' + body + har)
         J.append(Job(name, tu, 'h_main', enforce=[mangled], replace=[LIO] if 'MV_VARIANT_REMOVE_CHAR' in var else [], loops=False, unwind=smax + 2, klass='bounded',
                      bound=('Strings that start in the inline representation (every length 0..15 and content)' if 'MV_ONLY_SHORT' in var else 'heap blocks of at most %d bytes in the pre-state (both representations, every length and content, every free-byte count)' % smax) + '; loops unwound with unwinding assertions',
